@@ -907,6 +907,14 @@ func (r *run) judge() {
 					stable = true
 				}
 			}
+			// A non-limited connection that is closed in the very instant of the arrival may be the one
+			// that wakes the waiter; finding it gone, the call gives up with ErrLimitedConn even if
+			// another one arrives in the same instant. The statement is silent on flapping: not judged.
+			for _, c := range P {
+				if ct, ok := c.closedAt(); ok && !c.cls.limited() && ct.Equal(first.added) {
+					stable = false
+				}
+			}
 		}
 		// something happened while it waited?
 		for _, c := range P {
@@ -1073,14 +1081,14 @@ func (r *run) judge() {
 
 func TestSwarmSchedules(t *testing.T) {
 	name := t.Name()
-	hx.Check(t, 16000, 400000, 0, func(rt *rapid.T) {
+	hx.Check(t, 16000, 800000, 0, func(rt *rapid.T) {
 		runScenario(t, rt, name, drawScenario(rt, false))
 	})
 }
 
 func TestHostSchedules(t *testing.T) {
 	name := t.Name()
-	hx.Check(t, 8000, 160000, 0, func(rt *rapid.T) {
+	hx.Check(t, 8000, 300000, 0, func(rt *rapid.T) {
 		runScenario(t, rt, name, drawScenario(rt, true))
 	})
 }
